@@ -280,17 +280,29 @@ func runC24(c *Ctx) {
 			return
 		}
 		stored := map[string]bool{}
-		for _, b := range fn.Blocks {
-			for _, in := range b.Instrs {
-				if st, ok := in.(*ssa.Store); ok {
-					if base, f, ok := fieldAddrOf(st.Addr); ok && f != nil && recvTypeName(base.Type()) == typ {
-						if _, isAlloc := base.(*ssa.Alloc); isAlloc {
-							stored[f.Name()] = true
+		var collect func(fn *ssa.Function, depth int)
+		collect = func(fn *ssa.Function, depth int) {
+			for _, b := range fn.Blocks {
+				for _, in := range b.Instrs {
+					if st, ok := in.(*ssa.Store); ok {
+						if base, f, ok := fieldAddrOf(st.Addr); ok && f != nil && recvTypeName(base.Type()) == typ {
+							if _, isAlloc := base.(*ssa.Alloc); isAlloc {
+								stored[f.Name()] = true
+							}
+						}
+					}
+					// the record may be built by another conversion function of the package
+					if call, ok := in.(*ssa.Call); ok && depth < 2 {
+						if callee := staticCallee(call); callee != nil && callee != fn && p.byName[fnKey(callee)] == callee && callee.Signature.Results().Len() >= 1 {
+							if recvTypeName(callee.Signature.Results().At(0).Type()) == typ {
+								collect(callee, depth+1)
+							}
 						}
 					}
 				}
 			}
 		}
+		collect(fn, 0)
 		for _, f := range structFields(p, typ) {
 			if exempt[f] {
 				continue
